@@ -10,6 +10,7 @@ CONSTANTS
  Modes = {"git-push"}
  SmudgedWT = FALSE
  RecentDays = 10
+ CommitWindows = {0, 21}
  EmitSel = 0
  Thin = TRUE
  PruneFlags = {"none","dry-run","recent","force","verify-remote"}
